@@ -83,6 +83,15 @@ NEEDS = {
  'C15-d': ('C15', ['C05'], 'TexExpr.insert inserts the pieces back to front at the same index: a multi-piece insert at an index past the end comes out reversed'),
  'C16-d': ('C16', ['C19', 'C08'], 'untabled characters that are not str.isprintable() (NBSP, soft hyphen, zero-width space, BOM, controls) are categorised Ignored: one of them between a command name and a letter vanishes on save 1 and the name grows on load 2'),
  'C17-d': ('C17', [], 'read() strips leading U+FEFF only for non-str input forms: the same characters as list/generator/file lose the BOM and shift every position'),
+ 'C04-e': ('C04', ['C03'], 'contents trusts the token category for blank detection: a whitespace-only run of blanks the tokenizer does not know as spacers (form feed, NBSP, U+2028, U+3000 …) standing between two nodes stays in contents/descendants/text'),
+ 'C06-e': ('C06', ['C09'], 'the second argument pass became a loop whose guard misses one case: `\\section{A}{B}` (optional slot open, required used up, `{` follows) never terminates'),
+ 'C08-e': ('C08', ['C09', 'C16'], 'the second pass skips a spacer before a trailing `[`: for a fixed-signature command whose optional quota is used up the spacer is dropped but the bracket is not attached (`\\textbf{a} [b]` -> `\\textbf{a}[b]`)'),
+ 'C10-e': ('C10', ['C19'], 'a comment runs on over a bare CR (poses as a CRLF tweak): on CR-ended lines the comment swallows the following lines'),
+ 'C11-e': ('C11', ['C01'], 'read_skip_env accepts a spacer between `\\end` and `{name}`: a verbatim body containing `\\end {verbatim}` ends early'),
+ 'C15-e': ('C15', ['C05'], 'the reverse of repair F22: a multi-piece insert at a negative index scatters its pieces'),
+ 'C18-e': ('C18', ['C14'], 'TexGroup.parse strips delimiters with lstrip/rstrip: `{{x}}` is coerced to `{x}`, `{\\textbf{a}}` to an unbalanced group'),
+ 'C19-e': ('C19', ['C12', 'C13'], 'the sizing-command lookup is memoised on Token keys that hash by text only: a later `\\left(` with the same following characters gets the position of the first one (also across tokenisations)'),
+ 'C20-e': ('C20', [], 'Buffer.peek no longer clamps the stop of a range peek: a range entirely before the start returns items from the front once enough look-ahead is buffered'),
 }
 
 
